@@ -47,6 +47,27 @@ def part_iter_total(agg_):
     return c[0] if len(c) == 1 else None
 
 
+def variant_const_table(F, fn_def):
+    """a pure local function of one enum argument that returns an integer constant per variant -> {variant index: constant}"""
+    from . import util
+    g = util.local_fn(F, fn_def)
+    if g is None or g.get("argc") != 1:
+        return None
+    try:
+        ps = absint.Interp(F, summarise_pure=False).run(g)
+    except absint.Unanalysable:
+        return None
+    tab = {}
+    for p in ps:
+        if p.status != 'return' or p.eff or p.ret is None or p.ret[0] != 'int':
+            return None
+        ds = [(t, v) for t, v in p.cons if t[0] == 'discr' and isinstance(v, int) and absint.contains(t, ('param', 1))]
+        if len(ds) != 1 or ds[0][1] in tab:
+            return None
+        tab[ds[0][1]] = p.ret[1]
+    return tab or None
+
+
 class WriterLayout:
     def __init__(self, path, F=None):
         self.p = path
@@ -110,6 +131,14 @@ class WriterLayout:
             nm = nm.split('::')[-1] if isinstance(nm, str) else '?'
             if nm in ('x', 'y', 'z', 'm'):
                 return nm
+        if v[0] == 'app' and self.F is not None and len(v[2]) == 1 and \
+                any(isinstance(x, tuple) and x and x[0] in ('elem', 'elemref') for x in absint.subterms(v[2][0])):
+            # a per-variant constant computed by a pure local helper from the loop's element (patch kind code):
+            # evaluate the helper as a table variant -> constant
+            tab = variant_const_table(self.F, v[1])
+            if tab is not None:
+                self.patch_codes = sorted(tab.items())
+                return 'part_type'
         raise LayoutError("value %s is computed, not copied from a field" % absint.term_str(v0)[:80])
 
     def walk(self, effs, loops):
